@@ -283,6 +283,10 @@ GuardedResult guarded_execute(Engine &e, const Plan &p, int timeout_s) {
                 extra = std::string("SIG") + sigabbrev_np(sig);
             }
         }
+        if (ctx.find(" phase=verify") != std::string::npos) {
+            // died while decoding the output of a call that reported success
+            cls = "wrong-success";
+        }
         r.out.cls = cls;
         r.out.key = ctx.empty() ? extra : (extra.empty() ? ctx : ctx + " " + extra);
         r.out.detail = "process died (" + r.how + ") while: " + ctx;
